@@ -243,7 +243,7 @@ Ltac leaf :=
 
 Ltac crush :=
   repeat (match goal with
-  | |- context [match ?s with [] => _ | _ :: _ => _ end] => is_var s; destruct s as [|[| ? | ? | ] ?]
+  | |- context [match ?s with [] => _ | _ :: _ => _ end] => is_var s; destruct s as [|[| ? | ? | | ] ?]
   | |- context [if ?b then _ else _] => destruct b eqn:?
   end; cbn beta iota); leaf.
 
@@ -258,7 +258,7 @@ Proof.
   destruct (match cache_get_scheme (cf_flavour cf) c (rq_host rq) with
             | Some SchBasic => _ | Some SchBearer => _ | _ => _ end) as [attempted a1].
   simpl in H1.
-  destruct script as [|[| hdr | id | ] script1]; try (leaf; fail).
+  destruct script as [|[| hdr | id | | ] script1]; try (leaf; fail).
   destruct (parse_challenge hdr) as [|[| |] ps] eqn:Ech; try (leaf; fail).
   - (* Basic *)
     unfold fetch_basic, final_send. crush.
@@ -351,6 +351,7 @@ Definition outcome_ok (cf : config) (rq : request) (evs : list event) (r : resul
     c_user (cf_creds cf (rq_host rq)) && c_pass (cf_creds cf (rq_host rq)) = false
   | RErr EFetch => exists s, last evs no_event = (s, AFail) /\ is_reg (s, AFail) = false
   | RErr ERewind => rq_body rq = BOnce
+  | RErr ETransport => exists s, last evs no_event = (s, AErr)
   | RBad => True
   end.
 
@@ -365,7 +366,7 @@ Ltac bleaf :=
 
 Ltac bcrush :=
   repeat (match goal with
-  | |- context [match ?s with [] => _ | _ :: _ => _ end] => is_var s; destruct s as [|[| ? | ? | ] ?]
+  | |- context [match ?s with [] => _ | _ :: _ => _ end] => is_var s; destruct s as [|[| ? | ? | | ] ?]
   | |- context [if ?b then _ else _] => destruct b eqn:?
   end; cbn beta iota); bleaf.
 
@@ -376,7 +377,7 @@ Proof.
   unfold do_request.
   destruct (match cache_get_scheme (cf_flavour cf) c (rq_host rq) with
             | Some SchBasic => _ | Some SchBearer => _ | _ => _ end) as [attempted a1].
-  destruct script as [|[| hdr | id | ] script1]; try (bleaf; fail).
+  destruct script as [|[| hdr | id | | ] script1]; try (bleaf; fail).
   destruct (parse_challenge hdr) as [|[| |] ps] eqn:Ech; try (bleaf; fail).
   - unfold fetch_basic, final_send. bcrush.
   - set (scopes := if is_empty (get_param s_scope ps) then _ else _).
@@ -402,6 +403,7 @@ Lemma valid_credentials_succeed clean cf c rq script :
   rq_body rq <> BOnce ->
   r <> RErr ENoCred -> r <> RErr EMissing ->
   (forall s, ~ In (s, AFail) evs) ->
+  (forall s, ~ In (s, AErr) evs) ->
   (forall h a hdr, ~ In (SReg h a true, A401 hdr) evs) ->
   (forall s hdr ps, In (s, A401 hdr) evs -> parse_challenge hdr <> Ch SchUnknown ps) ->
   r = RResp false /\ (reg_sends evs <= 3)%nat /\ (fetches evs <= 1)%nat /\
@@ -410,14 +412,15 @@ Proof.
   pose proof (do_request_budget clean cf c rq script) as B.
   destruct (do_request clean cf c rq script) as [[evs c'] r].
   destruct B as (B1 & B2 & O).
-  intros Hbad Hbody Hnc Hmiss Hfail Hfresh Hknown.
-  destruct r as [[|]|[| | |]|]; simpl in O; try congruence.
+  intros Hbad Hbody Hnc Hmiss Hfail Herr Hfresh Hknown.
+  destruct r as [[|]|[| | | |]|]; simpl in O; try congruence.
   - exfalso. destruct O as (h & a & fresh & hdr & L & [->|(ps & P)]).
     + apply (Hfresh h a hdr). apply (last_in _ _ _ L). discriminate.
     + apply (Hknown (SReg h a fresh) hdr ps); auto. apply (last_in _ _ _ L). discriminate.
   - auto.
   - exfalso. destruct O as (s & L & Hs). apply (Hfail s).
     apply (last_in _ _ _ L). intro E. rewrite E in Hs. discriminate.
+  - exfalso. destruct O as (s & L). apply (Herr s). apply (last_in _ _ _ L). discriminate.
 Qed.
 
 (* which credentials are complete for which flow (the causes of ENoCred/EMissing) *)
@@ -430,4 +433,43 @@ Proof.
   pose proof (do_request_budget clean cf c rq script) as B.
   destruct (do_request clean cf c rq script) as [[evs c'] r].
   destruct B as (_ & _ & O). split; intros ->; exact O.
+Qed.
+
+(* ---------- failed sends (transport error / cancelled context) ---------- *)
+Fixpoint stops_after_failure (evs : list event) : Prop :=
+  match evs with
+  | [] => True
+  | (s, a) :: rest => (a = AErr -> rest = []) /\ stops_after_failure rest
+  end.
+
+Ltac fleaf :=
+  simpl; repeat split; auto; try (intros; discriminate);
+  try (intros (s0 & L0 & R0); simpl in L0;
+       first [reflexivity | discriminate L0 | (injection L0 as <-; simpl in R0; discriminate R0)]).
+
+Ltac fcrush :=
+  repeat (match goal with
+  | |- context [match ?s with [] => _ | _ :: _ => _ end] => is_var s; destruct s as [|[| ? | ? | | ] ?]
+  | |- context [if ?b then _ else _] => destruct b eqn:?
+  end; cbn beta iota); fleaf.
+
+(* nothing is sent after a send that got no response, and a token fetch that
+   failed or was cancelled leaves the cache as it was *)
+Lemma do_request_failures clean cf c rq script :
+  let '(evs, c', r) := do_request clean cf c rq script in
+  stops_after_failure evs /\
+  ((exists s, last evs no_event = (s, AErr) /\ is_reg (s, AErr) = false) -> c' = c) /\
+  ((exists s, last evs no_event = (s, AFail) /\ is_reg (s, AFail) = false) -> c' = c).
+Proof.
+  unfold do_request.
+  destruct (match cache_get_scheme (cf_flavour cf) c (rq_host rq) with
+            | Some SchBasic => _ | Some SchBearer => _ | _ => _ end) as [attempted a1].
+  destruct script as [|[| hdr | id | | ] script1]; try (fleaf; fail).
+  destruct (parse_challenge hdr) as [|[| |] ps] eqn:Ech; try (fleaf; fail).
+  - unfold fetch_basic, final_send. fcrush.
+  - set (scopes := if is_empty (get_param s_scope ps) then _ else _).
+    set (key := join [c_space] scopes).
+    cbv zeta. unfold fetch_bearer_plan, final_send.
+    destruct (if str_eqb key attempted then None else cache_get_token _ c _ SchBearer key) as [tok2|];
+      fcrush.
 Qed.
